@@ -377,3 +377,15 @@ M('c17c-get-c-last-match', 'C17', 'break', TB, "        if (bstr_cmp_c_nocasenor
   edits=[(TB, "        if (bstr_cmp_c_nocasenorzero(key_candidate, ckey) == 0) {\n            return element;\n        }\n    }\n\n    return NULL;", "        if (bstr_cmp_c_nocasenorzero(key_candidate, ckey) == 0) {\n            found = element;\n        }\n    }\n\n    return found;"),
          (TB, "void *htp_table_get_c(const htp_table_t *table, const char *ckey) {\n    if ((table == NULL)||(ckey == NULL)) return NULL;\n", "void *htp_table_get_c(const htp_table_t *table, const char *ckey) {\n    if ((table == NULL)||(ckey == NULL)) return NULL;\n    void *found = NULL;\n")])
 M('c17c-params-add-variant-mixed', 'C17', 'break', 'htp/htp_transaction.c', "    return htp_table_addk(tx->request_params, param->name, param);", "    if (param->source == HTP_SOURCE_COOKIE) return htp_table_add(tx->request_params, param->name, param);\n    return htp_table_addk(tx->request_params, param->name, param);", 'C17.c')
+
+# ---------------- C18
+M('c18a-tx-create-no-null-test', 'C18', 'break', TX, "    htp_tx_t *tx = calloc(1, sizeof (htp_tx_t));\n    if (tx == NULL) return NULL;\n", "    htp_tx_t *tx = calloc(1, sizeof (htp_tx_t));\n", 'C18.a')
+M('c18a-list-push-newblock-copy', 'C18', 'break', LS, "            newblock = realloc(l->elements, new_size * sizeof (void *));\n            if (newblock == NULL) return HTP_ERROR;", "            newblock = realloc(l->elements, new_size * sizeof (void *));", 'C18.a')
+M('c18a-urlenp-bb-escapes', 'C18', 'break', 'htp/htp_urlencoded.c', "    urlenp->_bb = bstr_builder_create();\n    if (urlenp->_bb == NULL) {\n        htp_table_destroy(urlenp->params);\n        free(urlenp);\n        return NULL;\n    }", "    urlenp->_bb = bstr_builder_create();", 'C18.a')
+M('c18a-keep-pending-header-untested', 'C18', 'keep', RQ, "                    connp->in_header = bstr_dup_mem(data, len);\n                    if (connp->in_header == NULL) return HTP_ERROR;\n                }\n            } else {", "                    connp->in_header = bstr_dup_mem(data, len);\n                }\n            } else {")
+M('c18a-keep-not-form', 'C18', 'keep', TX, "    htp_tx_t *tx = calloc(1, sizeof (htp_tx_t));\n    if (tx == NULL) return NULL;\n", "    htp_tx_t *tx = calloc(1, sizeof (htp_tx_t));\n    if (!tx) return NULL;\n")
+M('c18a-decompressor-buffer-unchecked', 'C18', 'break', DC, "    drec->buffer = malloc(GZIP_BUF_SIZE);\n    if (drec->buffer == NULL) {\n        free(drec);\n        return NULL;\n    }", "    drec->buffer = malloc(GZIP_BUF_SIZE);", 'C18.a')
+M('c18b-conn-open-dangling-again', 'C18', 'break', 'htp/htp_connection.c', "                free(conn->client_addr);\n                conn->client_addr = NULL;", "                free(conn->client_addr);", 'C18.b')
+M('c18b-set-line-frees-without-clearing', 'C18', 'break', TX, "    if (tx->connp->cfg->parse_request_line(tx->connp) != HTP_OK) return HTP_ERROR;\n\n    return HTP_OK;\n}\n\nvoid htp_tx_req_set_parsed_uri", "    if (tx->connp->cfg->parse_request_line(tx->connp) != HTP_OK) {\n        bstr_free(tx->request_line);\n        return HTP_ERROR;\n    }\n\n    return HTP_OK;\n}\n\nvoid htp_tx_req_set_parsed_uri", 'C18.b')
+M('c18b-keep-clear-through-temp', 'C18', 'keep', 'htp/htp_parsers.c', "        bstr_free(connp->in_tx->request_auth_username);\n        connp->in_tx->request_auth_username = NULL;", "        bstr *tmpu = connp->in_tx->request_auth_username;\n        connp->in_tx->request_auth_username = NULL;\n        bstr_free(tmpu);")
+M('c18b-res-line-free-without-null', 'C18', 'break', RS, "            if (connp->out_tx->response_status != NULL) {\n                bstr_free(connp->out_tx->response_status);\n                connp->out_tx->response_status = NULL;\n            }", "            if (connp->out_tx->response_status != NULL) {\n                bstr_free(connp->out_tx->response_status);\n            }", 'C18.b')
